@@ -10,7 +10,7 @@ import (
 // diff. Comments and strings are preserved byte-for-byte.
 //
 // Rules:
-//  1. Line endings are normalized to LF.
+//  1. Line endings are normalized to LF (CR LF becomes LF).
 //  2. Trailing whitespace is stripped from every line.
 //  3. Indentation is exactly 2 spaces per bracket depth ({, [, ( open; ), ], }
 //     close). A line whose first character is a closer indents at depth-1.
@@ -18,8 +18,10 @@ import (
 //  5. The file ends with exactly one newline (an empty file stays empty).
 func CanonicalizeSource(source string) string {
 	source = strings.TrimPrefix(source, "\ufeff") // strip UTF-8 BOM; the lexer rejects it
+	// Only CR LF is a line ending. A lone CR is white space to the lexer (and ordinary content
+	// inside a string literal), never a line break: rewriting it to LF cut string literals in two
+	// and split lines. At the end of a line it is stripped with the other trailing white space.
 	source = strings.ReplaceAll(source, "\r\n", "\n")
-	source = strings.ReplaceAll(source, "\r", "\n")
 
 	lines := strings.Split(source, "\n")
 	var out []string
